@@ -11,9 +11,12 @@ PROPS = {
     'C01': ('theories/Properties/C01.v', [], 'c01'),
     'C02': ('theories/Properties/C02.v', [], 'c02'),
     'C05': ('theories/Properties/C05.v', [], 'c05'),
+    'C03': ('theories/Properties/C03.v', [], 'c03'),
     'C04': ('theories/Properties/C04.v', [], 'c04'),
+    'C06': ('theories/Properties/C06.v', [], 'c06'),
     'C07': ('theories/Properties/C07.v', [], 'c07'),
     'C08': ('theories/Properties/C08.v', [], 'c08'),
+    'C09': ('theories/Properties/C09.v', [], 'c09'),
     'C10': ('theories/Properties/C10.v', [], 'c10'),
     'C15': ('theories/Properties/C15.v', [], 'c15'),
     'C16': ('theories/Properties/C16.v', [], 'c16'),
